@@ -63,7 +63,7 @@ def run(ctx):
     # the statement each of the three bodies applies to table Deps (a body may also carry statements on other tables,
     # e.g. add_dep the Files lookup of its dependency when that lookup is spelled out in it instead of called)
     def on_deps(b):
-        return [s for s in sql_of(b) if sqlc.table(s) == "deps" and sqlc.kind(s) in ("insert or replace into", "insert into", "update", "delete from")]
+        return [s for s in sql_of(b) if sqlc.table(s) == "deps" and re.match(r"(insert|replace|update|delete)\b", sqlc.kind(s) or "")]
     s1, s2, sa, sd = on_deps(b1), on_deps(b2), on_deps(ad), sql_of(dp) + [s for (_, _, s, _) in str_consts(dp) if "Deps" in s]
     schema = [s for s in sql_of(init) if sqlc.kind(s) == "create table" and sqlc.table(s) == "deps"]
     ok = len(s1) == 1 and len(s2) == 1 and len(sa) == 1 and len(schema) == 1
